@@ -4,13 +4,15 @@ pub trait VSink: Sized {
     spec fn log(&self) -> Seq<u8>;
     spec fn flushed(&self) -> nat;
     spec fn wf(&self) -> bool;
+    /// which layers this sink is made of (never changed by writing): lets a generic caller keep track of a layer stack
+    spec fn shape(&self) -> Seq<int>;
 
     /// Write::write : may accept any part of the buffer (short writes), may fail (e.g. Interrupted) without accepting anything
     fn write(&mut self, buf: &[u8]) -> (r: std::io::Result<usize>)
         requires old(self).wf(),
         ensures
             //@label - vsink.write.wf_preserved
-            final(self).wf(),
+            final(self).wf() && final(self).shape() == old(self).shape(),
             //@label - vsink.write.accepts_prefix
             r is Ok ==> r->Ok_0 <= buf@.len() && final(self).log() == old(self).log() + buf@.subrange(0, r->Ok_0 as int),
             //@label - vsink.write.total_fits_u64
@@ -27,7 +29,7 @@ pub trait VSink: Sized {
         requires old(self).wf(),
         ensures
             //@label - vsink.flush.wf_preserved
-            final(self).wf() && final(self).log() == old(self).log(),
+            final(self).wf() && final(self).log() == old(self).log() && final(self).shape() == old(self).shape(),
             //@label - vsink.flush.everything_pushed_down
             r is Ok ==> final(self).flushed() == final(self).log().len(),
     ;
@@ -37,7 +39,7 @@ pub trait VSink: Sized {
         requires old(self).wf(),
         ensures
             //@label - vsink.finalize.wf_preserved
-            final(self).wf(),
+            final(self).wf() && final(self).shape() == old(self).shape(),
             //@label - vsink.finalize.appends_only
             final(self).log().len() >= old(self).log().len() && final(self).log().subrange(0, old(self).log().len() as int) == old(self).log(),
             //@label - vsink.finalize.total_fits_u64
@@ -49,7 +51,7 @@ pub trait VSink: Sized {
 #[verifier::external_body]
 pub fn vio_write_all<W: VSink, B: VAsBytes + ?Sized>(w: &mut W, buf: &B) -> (r: std::io::Result<()>)
     requires old(w).wf(),
-    ensures final(w).wf(), final(w).flushed() == old(w).flushed(),
+    ensures final(w).wf(), final(w).shape() == old(w).shape(), final(w).flushed() == old(w).flushed(),
         r is Ok ==> final(w).log() == old(w).log() + buf.bytes(),
         r is Err ==> exists|k: int| 0 <= k <= buf.bytes().len() && final(w).log() == old(w).log() + buf.bytes().subrange(0, k),
 { unimplemented!() }
@@ -72,7 +74,7 @@ pub broadcast proof fn axiom_le64_bytes(v: u64)
 #[verifier::external_body]
 pub fn vio_write_u8<W: VSink>(w: &mut W, v: u8) -> (r: std::io::Result<()>)
     requires old(w).wf(),
-    ensures final(w).wf(), final(w).flushed() == old(w).flushed(),
+    ensures final(w).wf(), final(w).shape() == old(w).shape(), final(w).flushed() == old(w).flushed(),
         r is Ok ==> final(w).log() == old(w).log() + seq![v],
         r is Err ==> final(w).log() == old(w).log(),
 { unimplemented!() }
@@ -80,7 +82,7 @@ pub fn vio_write_u8<W: VSink>(w: &mut W, v: u8) -> (r: std::io::Result<()>)
 #[verifier::external_body]
 pub fn vio_write_u64_le<W: VSink>(w: &mut W, v: u64) -> (r: std::io::Result<()>)
     requires old(w).wf(),
-    ensures final(w).wf(), final(w).flushed() == old(w).flushed(),
+    ensures final(w).wf(), final(w).shape() == old(w).shape(), final(w).flushed() == old(w).flushed(),
         r is Ok ==> final(w).log() == old(w).log() + le64_bytes(v),
         r is Err ==> exists|k: int| 0 <= k <= 8 && final(w).log() == old(w).log() + le64_bytes(v).subrange(0, k),
 { unimplemented!() }
@@ -90,7 +92,7 @@ pub fn vio_write_u64_le<W: VSink>(w: &mut W, v: u64) -> (r: std::io::Result<()>)
 #[verifier::external_body]
 pub fn vio_copy_take<S: VRead, W: VSink>(src: &mut S, limit: u64, dest: &mut W) -> (r: std::io::Result<u64>)
     requires old(src).wf(), old(dest).wf(),
-    ensures final(src).wf(), final(dest).wf(), final(src).data() == old(src).data(), final(dest).flushed() == old(dest).flushed(),
+    ensures final(src).wf(), final(dest).wf(), final(dest).shape() == old(dest).shape(), final(src).data() == old(src).data(), final(dest).flushed() == old(dest).flushed(),
         r is Ok ==> r->Ok_0 == smin(limit as int, srem(old(src)) as int)
             && final(src).pos() == old(src).pos() + r->Ok_0
             && final(dest).log() == old(dest).log() + old(src).data().subrange(old(src).pos() as int, old(src).pos() + r->Ok_0),
@@ -107,7 +109,7 @@ pub broadcast proof fn axiom_le32_bytes(v: u32)
 #[verifier::external_body]
 pub fn vio_write_u32_le<W: VSink>(w: &mut W, v: u32) -> (r: std::io::Result<()>)
     requires old(w).wf(),
-    ensures final(w).wf(), final(w).flushed() == old(w).flushed(),
+    ensures final(w).wf(), final(w).shape() == old(w).shape(), final(w).flushed() == old(w).flushed(),
         r is Ok ==> final(w).log() == old(w).log() + le32_bytes(v),
         r is Ok ==> final(w).log().len() == old(w).log().len() + 4 && final(w).log().subrange(0, old(w).log().len() as int) == old(w).log()
             && le_u32(final(w).log().subrange(old(w).log().len() as int, old(w).log().len() + 4int)) == v,
